@@ -1,2 +1,129 @@
-(* C06 - placeholder while the proofs are being written *)
-From SWH.model Require Import FromDisk.
+(* C06 - A directory read from disk gets the id git gives the same tree.
+   Model: model/FromDisk.v (the tree on disk is data [fsnode]; the order in
+   which the OS lists a directory is the oracle [ord], any permutation).
+   Property theorems only: each is closed by `exact` of a lemma proved in
+   proofs/FromDiskProofs.v / FromDiskMain.v, with Print Assumptions beneath. *)
+From Coq Require Import List NArith Bool Permutation.
+From SWH.lib Require Import Bytes Hex GitHeader.
+From SWH.model Require Import Dir FromDisk.
+From SWH.proofs Require Import FromDiskProofs FromDiskExport FromDiskMain.
+From SWH Require Import Generated.
+Import ListNotations.
+Open Scope N_scope.
+
+(* The specification-level id of a tree (regular file = blob of its bytes, link
+   = blob of its text, special file = empty blob, directory = tree of its
+   entries with the code's sort key and octal modes) IS the id git gives the
+   tree: [git_node_id] encodes with git's own ordering rule (base_name_compare)
+   and the literal modes 040000 / 120000 / 100644 / 100755 (100755 iff any
+   execute bit).  For every hash function and every tree a POSIX directory can
+   hold (names distinct, non-empty, without '/' and NUL). *)
+Theorem C06_is_git_tree : forall (H : bytes -> bytes) (t : fsnode),
+  wf_fs t = true -> node_id H t = git_node_id H t.
+Proof. exact node_id_is_git. Qed.
+Print Assumptions C06_is_git_tree.
+
+(* The walk of Directory.from_disk without filter, for EVERY listing order
+   (each os.scandir may answer any permutation, independently per directory)
+   and every max_content_length under which it does not raise: the root hash
+   is the git tree id of the tree (sub-directories, empty ones included, are
+   trees). *)
+Theorem C06_walk_refines : forall (H : bytes -> bytes) ord limit t m,
+  (forall p ks, Permutation (ord p ks) ks) -> wf_fs t = true ->
+  from_disk ord FAll limit t = FdOk m ->
+  mt_id H m = node_id H t /\ mt_id H m = git_node_id H t.
+Proof. exact walk_is_git_tree. Qed.
+Print Assumptions C06_walk_refines.
+
+(* ... and so is the hash of the node at every path; the paths of the result
+   are exactly the paths of the tree (None on one side iff None on the other). *)
+Theorem C06_walk_refines_paths : forall (H : bytes -> bytes) ord limit t m path,
+  (forall p ks, Permutation (ord p ks) ks) -> wf_fs t = true ->
+  from_disk ord FAll limit t = FdOk m ->
+  option_map (mt_id H) (mt_get path m) = option_map (node_id H) (fs_get path t) /\
+  option_map (mt_id H) (mt_get path m) = option_map (git_node_id H) (fs_get path t).
+Proof. exact walk_paths_git. Qed.
+Print Assumptions C06_walk_refines_paths.
+
+(* The walk cannot fail without a size limit; with a limit it raises exactly
+   when a symbolic link it reaches is longer than the limit. *)
+Theorem C06_walk_total : forall ord f t, exists m, from_disk ord f None t = FdOk m.
+Proof. exact from_disk_total. Qed.
+Print Assumptions C06_walk_total.
+
+(* The result does not depend on the order in which the OS lists entries
+   (nor on the size limit): same root id, same id at every path. *)
+Theorem C06_listing_order_free : forall (H : bytes -> bytes) ord1 ord2 l1 l2 t m1 m2,
+  (forall p ks, Permutation (ord1 p ks) ks) -> (forall p ks, Permutation (ord2 p ks) ks) -> wf_fs t = true ->
+  from_disk ord1 FAll l1 t = FdOk m1 -> from_disk ord2 FAll l2 t = FdOk m2 ->
+  mt_id H m1 = mt_id H m2 /\
+  forall path, option_map (mt_id H) (mt_get path m1) = option_map (mt_id H) (mt_get path m2).
+Proof. exact order_free_all. Qed.
+Print Assumptions C06_listing_order_free.
+
+(* Trailing slashes: the path normalisation at the top of from_disk maps
+   "p" followed by any number of "/" to "p" (p non-empty, not ending in "/"),
+   so the same directory is scanned ... *)
+Theorem C06_trailing_slash : forall (p : bytes) (k : nat),
+  p <> [] -> last p 0 <> SLASH -> norm_path (p ++ repeat SLASH k) = p.
+Proof. exact trailing_slash. Qed.
+Print Assumptions C06_trailing_slash.
+
+(* ... and "/" stays "/" ("//", "///", ... are read as "/"). *)
+Theorem C06_trailing_slash_root : forall k : nat, norm_path (SLASH :: repeat SLASH k) = [SLASH].
+Proof. exact trailing_slash_root. Qed.
+Print Assumptions C06_trailing_slash_root.
+
+(* A symbolic link is the blob of its link text, mode 120000, never skipped;
+   nothing but the text enters: the target is never looked at. *)
+Theorem C06_symlink_never_followed : forall (H : bytes -> bytes) (x : bytes),
+  node_id H (Lnk x) = blob_id H x /\ git_node_id H (Lnk x) = blob_id H x /\
+  (forall n, fs_entry H (n, Lnk x) = {| e_name := n; e_type := EFile; e_target := blob_id H x; e_perms := 40960 |}) /\
+  (forall limit ci, from_file limit (Lnk x) = FdOk ci -> ci_data ci = x /\ ci_perms ci = 40960 /\ ci_skipped ci = false).
+Proof. exact symlink_never_followed. Qed.
+Print Assumptions C06_symlink_never_followed.
+
+(* A fifo / socket / device is indistinguishable from an empty regular file
+   with the same permission bits. *)
+Theorem C06_special_is_empty_file : forall (H : bytes -> bytes) (mo : N),
+  node_id H (Special mo) = blob_id H [] /\ git_node_id H (Special mo) = blob_id H [] /\
+  (forall n, fs_entry H (n, Special mo) = fs_entry H (n, Reg [] mo)) /\
+  (forall limit, from_file limit (Special mo) = from_file limit (Reg [] mo)).
+Proof. exact special_is_empty_file. Qed.
+Print Assumptions C06_special_is_empty_file.
+
+(* mode_to_perms: executable_content iff any of the three execute bits (0o111 = 73) is set, else content. *)
+Theorem C06_exec_bit : forall mode : N,
+  (file_perms mode = PERMS_executable_content <-> N.land mode 73 <> 0) /\
+  (file_perms mode = PERMS_content <-> N.land mode 73 = 0).
+Proof. exact exec_bit. Qed.
+Print Assumptions C06_exec_bit.
+
+(* The DentryPerms constants regenerated from the source are git's modes. *)
+Theorem C06_perms_table :
+  PERMS_directory = 16384 /\ PERMS_symlink = 40960 /\ PERMS_content = 33188 /\ PERMS_executable_content = 33261 /\
+  map oct [PERMS_directory; PERMS_symlink; PERMS_content; PERMS_executable_content]
+  = [bs "40000"; bs "120000"; bs "100644"; bs "100755"].
+Proof. exact perms_table. Qed.
+Print Assumptions C06_perms_table.
+
+(* With empty directories ignored, the root id is the git tree id of the tree
+   without its recursively empty directories - the tree `git add -A && git
+   write-tree` records (git does not track empty directories); the agreement
+   of [prune_empty] with git is validated at run time (thorough tier). *)
+Theorem C06_empty_ignored_is_git : forall (H : bytes -> bytes) ord limit t m,
+  (forall p ks, Permutation (ord p ks) ks) -> wf_fs t = true ->
+  from_disk ord FEmpty limit t = FdOk m -> mt_id H m = git_node_id H (prune_empty t).
+Proof. exact empty_ignored_is_git. Qed.
+Print Assumptions C06_empty_ignored_is_git.
+
+(* Non-vacuity: a well-formed tree with a sub-directory, a symlink, an
+   executable, a special file and a directory that is empty only recursively;
+   a listing oracle that is not the identity; the walk succeeds. *)
+Theorem C06_satisfiable :
+  wf_fs ex_tree = true /\ (forall p ks, Permutation (rev_ord p ks) ks) /\
+  (exists m, from_disk rev_ord FAll (Some 5) ex_tree = FdOk m /\ m <> MNode []) /\
+  prune_empty ex_tree <> ex_tree /\ prune_named [bs ".GIT"] false ex_tree <> ex_tree /\
+  prune_named [bs ".GIT"] true ex_tree = ex_tree.
+Proof. exact ex_tree_ok. Qed.
+Print Assumptions C06_satisfiable.
